@@ -411,6 +411,14 @@ class Graph:
                         exp = id(m.spec) in rs or any(isinstance(x, InterfaceClass) and x == m.spec for x in rl_)
                         if bool(m.spec.providedBy(n.obj)) != exp:
                             ctx.violation('providedBy-vs-reach', {'obj': n.name, 'iface': m.name, 'expected': exp})
+                    elif m.kind in ('decl', 'impl', 'prov'):
+                        # any specification can be asked, not only interfaces: true iff it is the object's own
+                        # specification or reachable from it
+                        ctx.ev()
+                        ctx.count('providedBy_asked_of_non_interface_specifications')
+                        exp = m.spec is spec or id(m.spec) in rs
+                        if bool(m.spec.providedBy(n.obj)) != exp:
+                            ctx.violation('providedBy-vs-reach', {'obj': n.name, 'specification': m.name, 'expected': exp})
             elif n.kind == 'impl':
                 rs, rl_ = util.reach(n.spec, util.spec_bases)
                 for m in self.nodes:
@@ -419,6 +427,11 @@ class Graph:
                         exp = id(m.spec) in rs or any(isinstance(x, InterfaceClass) and x == m.spec for x in rl_)
                         if bool(m.spec.implementedBy(n.cls)) != exp:
                             ctx.violation('implementedBy-vs-reach', {'cls': n.name, 'iface': m.name, 'expected': exp})
+                    elif m.kind in ('decl', 'impl'):
+                        ctx.ev()
+                        exp = m.spec is n.spec or id(m.spec) in rs
+                        if bool(m.spec.implementedBy(n.cls)) != exp:
+                            ctx.violation('implementedBy-vs-reach', {'cls': n.name, 'specification': m.name, 'expected': exp})
 
     @staticmethod
     def conflated(S, rl):
@@ -633,6 +646,22 @@ def run_case(ctx, rng, job):
                 done += 1
                 check()
             continue
+        if rng.random() < 0.15:
+            # a super() query: it leaves a per-class cache of synthesised specifications on the class
+            # declarations involved; re-basing above them afterwards must still reach everything
+            impls = [m for m in g.nodes if m.kind in ('impl', 'prov') and len(m.cls.__mro__) > 2]
+            if impls:
+                m = rng.choice(impls)
+                ob = m.obj if m.kind == 'prov' else m.cls()
+                k = rng.choice(m.cls.__mro__[:-1])
+                try:
+                    list(providedBy(super(k, ob)).flattened())
+                    list(implementedBy(super(k, ob)).flattened())
+                except IRO:
+                    # strict configuration: the synthesised specification may have no C3 order
+                    ctx.count('super_query_strict_raises')
+                ctx.op('super-query', m.name, k.__name__)
+                ctx.count('super_queries_between_rebasings')
         if r < 0.12:
             g.drop_leaf()
         elif r < 0.2:
